@@ -302,6 +302,7 @@ const rule = "two real object.Client instances on a harness ndn.Engine; per scen
 
 var assumptions = []string{
 	"the select in Client.run() is replaced by hook VerifStep (one arm per call, same arm bodies); the engine callbacks only perform channel sends, so arm-granular interleaving covers the goroutine interleavings of the production client",
+	"the harness network remembers (name, nonce) of every Interest it carried and silently drops an Interest repeating one or carrying no nonce (as a forwarder's dead nonce list does); such drops do not count as losses for the retry budget",
 	"harness engine = pending-Interest table with name/CanBePrefix matching like engine/basic (a Data satisfies every matching pending Interest; a timed-out Interest no longer receives Data); no cache, no forwarder; signatures are not validated",
 	"scaled model: pSegmentSize overridden to 4 at check time (cmd/xform -const) with content lengths 1..45 (1..12 segments, crossing the fetch window of 10); the real constant 8000 is exercised by a second build with lengths 1, 7999, 8000, 8001, 15999, 16000, 16001, 24001 (thorough: 88001)",
 	"content bytes are a position-dependent hash so that swapped, duplicated, dropped or shifted segments change the byte stream",
@@ -389,6 +390,7 @@ func main() {
 				d = 12 * time.Minute
 			}
 			cov["store_differential"] = runStores(rep, th, time.Now().Add(d))
+			cov["large_prefix_remove"] = runBigRemove(rep)
 			cov["real_segment_size"] = runChild(rep, th)
 			ex, _ := cov["exhaustive"].(bool)
 			if sd, ok := cov["store_differential"].(map[string]any); ok {
